@@ -917,7 +917,7 @@ static void Regress()
      else {
         if (FlatCpp(back) != pb) Fail("regress|cpp-reflatten-of-python-example", DiffText("python", pb, "c++", FlatCpp(back)));
         int32 i32 = 0; int64 i64 = 0; bool bo = false; float fl = 0; Point pt; Rect rc; const String * st = NULL; ConstMessageRef sub; uint32 tc = 0, cnt = 0; const void * dp = NULL; uint32 dn = 0;
-        if (back.what != 666 || back.GetNumNames() != 16 || back.FindInt32("int32", 2, i32).IsError() || i32 != 30 || back.FindInt64("int64", 4, i64).IsError() || i64 != -25 || back.FindBool("bool", 0, bo).IsError() || !bo
+        if (back.what != 666 || back.GetNumNames() != 15 || back.FindInt32("int32", 2, i32).IsError() || i32 != 30 || back.FindInt64("int64", 4, i64).IsError() || i64 != -25 || back.FindBool("bool", 0, bo).IsError() || !bo
             || back.FindFloat("float", 4, fl).IsError() || fl != 4.0f || back.FindPoint("point", 0, pt).IsError() || pt.x() != 6.5f || pt.y() != 7.5f || back.FindRect("rect", 0, rc).IsError() || rc.left() != 9.1f || rc.bottom() != 12.5f
             || back.FindString("string", 2, &st).IsError() || *st != "strongme!" || back.FindMessage("submsg", 0, sub).IsError() || sub()->what != 777 || sub()->GetString("hola") != "senor"
             || back.GetInfo("data", &tc, &cnt).IsError() || tc != 555 || cnt != 3 || back.FindData("data", 555, 1, &dp, &dn).IsError() || dn != (strItems ? 6u : 5u) || memcmp(dp, "stuff\0", dn) != 0
@@ -927,7 +927,7 @@ static void Regress()
      MMessage * mm = MMAllocMessage(0); MCK(mm, "MMAllocMessage");
      if (MMUnflattenMessage(mm, pb.data(), (uint32)pb.size()) != CB_NO_ERROR) Fail("regress|mini-rejects-python-example", "MMUnflattenMessage"); else if (FlatMM(mm) != pb) Fail("regress|mini-reflatten-of-python-example", DiffText("python", pb, "mini", FlatMM(mm)));
      MMFreeMessage(mm);
-     UMessage um; int16 i16 = 0; if (UMInitializeWithExistingData(&um, (const uint8 *)pb.data(), (uint32)pb.size()) != CB_NO_ERROR || UMGetWhatCode(&um) != 666 || UMGetNumFields(&um) != 16 || UMFindInt16(&um, "int16", 1, &i16) != CB_NO_ERROR || i16 != 18 || !UMGetString(&um, "string", 0) || strcmp(UMGetString(&um, "string", 0), "stringme!") != 0) Fail("regress|micro-of-python-example", "UMessage getters on message.py's example");
+     UMessage um; int16 i16 = 0; if (UMInitializeWithExistingData(&um, (const uint8 *)pb.data(), (uint32)pb.size()) != CB_NO_ERROR || UMGetWhatCode(&um) != 666 || UMGetNumFields(&um) != 15 || UMFindInt16(&um, "int16", 1, &i16) != CB_NO_ERROR || i16 != 18 || !UMGetString(&um, "string", 0) || strcmp(UMGetString(&um, "string", 0), "stringme!") != 0) Fail("regress|micro-of-python-example", "UMessage getters on message.py's example");
      if (!caseBad && !deferredKey.empty()) Fail(deferredKey, deferredDetail);
      vh::distinct(vh::fnvs(pb), true); vh::stat("python_documentation_example_checked"); }
    vh::begin_case(2);   // message.py: FlattenedSize() counts the characters, not the UTF-8 bytes, of a field name -> wrong sub-Message length word
